@@ -223,7 +223,10 @@ def gen_plan_c07(rng, tier, idx, opts):
 # C07 sweeps: one scenario, EVERY crash point of its first incarnation
 # --------------------------------------------------------------------------
 def gen_sweep_plan(rng, tier, idx, opts):
-    cfg = gen_config(rng, 4 if tier == "thorough" else 3, [1, 2, 2, 3, 3, 4])
+    if opts.get("sweep_lines"):
+        cfg = gen_config(rng, 3, [1, 2, 2, 3])          # ~2-6 k line events x 2 actions each
+    else:
+        cfg = gen_config(rng, 4 if tier == "thorough" else 3, [1, 2, 2, 3, 3, 4])
     if cfg["results_name"] is None:
         cfg["results_name"] = "res"
     # every raw write is a crash point with several torn lengths: keep the number of raw writes per save small
